@@ -52,15 +52,15 @@ func (f *Eql) Call(s *slip.Scope, args slip.List, depth int) slip.Object {
 	}
 	switch tx := x.(type) {
 	case slip.Character:
-		if y.(slip.Character) == tx {
+		if c, ok := y.(slip.Character); ok && c == tx {
 			return slip.True
 		}
 	case slip.String:
 		if x == y {
 			return slip.True
 		}
-	default:
-		if same(x, y) != nil {
+	case slip.Number:
+		if _, ok := y.(slip.Number); ok && same(x, y) != nil {
 			return slip.True
 		}
 	}
